@@ -269,6 +269,41 @@ example : listVersions [⟨lit "example.com/a", lit "v1.0.0"⟩, ⟨lit "example
     ⟨lit "example.com/a", lit "v0.0.0-20190101000000-abcdef123456"⟩, ⟨lit "example.com/b", lit "v1.1.0"⟩] (lit "example.com/a")
     = [lit "v1.0.0"] := by decide +kernel
 
+/-! ### 4b. what "pseudo-version" means -/
+
+/-- The full statement: `isPseudoVersion` (count of '-' ≥ 2, valid semantic version, and the regular
+expression regenerated from pseudo.go) is exactly the regex-free reference `isPseudoRef` — the three
+forms `vX.0.0-date-hash`, `vX.Y.Z-pre.0.date-hash` (pre = anything without '+'),
+`vX.Y.(Z+1)-0.date-hash`, optionally `+incompatible`.  Not proved for all strings (it needs a
+correctness proof of the derivative matcher against a denotational semantics); `isPseudoRef` itself is
+compared with golang.org/x/mod/module.IsPseudoVersion by the harness on every run. -/
+def isPseudo_spec_statement : Prop := ∀ v, isPseudo v = isPseudoRef v
+
+/-- TESTS (labelled as such): representative versions of every form — hyphenated, dotted, numeric and
+upper-case pre-release identifiers, `+incompatible`, other build metadata — and near misses. -/
+def pseudoSamples : List Bytes := [
+  "v0.0.0-20190101000000-abcdef123456", "v1.2.4-0.20190101000000-abcdef123456", "v1.2.3-pre.0.20190101000000-abcdef123456",
+  "v2.0.1-0.20190101000000-abcdef123456+incompatible", "v1.0.0-20190101000000-abcdef123456", "v2.0.0-20190101000000-ABCdef123456",
+  "v1.2.3-rc-1.0.20190101000000-abcdefabcdef", "v1.2.3-rc.1.0.20190101000000-abcdefabcdef", "v1.2.3-1.0.20190101000000-abcdefabcdef",
+  "v1.2.3-alpha-beta.2.0.20190101000000-abcdefabcdef", "v1.0.0-RC-1.0.20190101000000-abcdefabcdef", "v1.0.0-x--y.0.20190101000000-abcdefabcdef",
+  "v0.3.0-a.b-c.d.0.20190101000000-0123456789ab", "v1.2.3-0.0.20190101000000-abcdefabcdef", "v1.2.3--.0.20190101000000-abcdefabcdef",
+  "v2.1.0-rc-1.0.20190101000000-abcdefabcdef+incompatible", "v3.0.0-20190101000000-abcdefabcdef+incompatible", "v10.20.31-0.20190101000000-a",
+  -- not pseudo-versions
+  "v1.2.3-rc-1.1.20190101000000-abcdefabcdef", "v1.2.3-rc-1.0.2019010100000-abcdefabcdef", "v1.2.3-rc-1.0.201901010000000-abcdefabcdef",
+  "v1.2.3-rc-1.0.20190101000000", "v1.0.0-20190101000000-abc-def", "v1.0.1-20190101000000-abcdefabcdef", "v1.2.3-rc-1.0-20190101000000-abcdefabcdef",
+  "v1.2.3-0.20190101000000", "v1.2.4-0.20190101000000-abcdef123456+meta", "v1.2.3-rc-1.0.20190101000000-abcdefabcdef+build.5",
+  "v1.0.0", "v1.2.3-rc-1", "v1.2.3-rc.1", "v2.0.0+incompatible", "v1", "vfoo", "", "1.2.4-0.20190101000000-abcdef123456",
+  "v01.2.4-0.20190101000000-abcdef123456", "v1.2.4-0.20190101000000-abcdef_123456", "v1.2.4-00.20190101000000-abcdef123456"].map lit
+
+/-- the proved part of `isPseudo_spec_statement`: agreement on `pseudoSamples`.  Tightening or loosening
+the regular expression in pseudo.go (e.g. forbidding '-' in the pre-release part) breaks this. -/
+theorem isPseudo_spec_partial : ∀ v ∈ pseudoSamples, isPseudo v = isPseudoRef v := by decide +kernel
+
+example : isPseudo (lit "v1.2.3-rc-1.0.20190101000000-abcdefabcdef") = true ∧
+    isPseudo (lit "v1.2.3-rc-1.1.20190101000000-abcdefabcdef") = false ∧
+    listVersions [⟨lit "example.com/a", lit "v1.2.3-rc-1"⟩, ⟨lit "example.com/a", lit "v1.2.3-rc-1.0.20190101000000-abcdefabcdef"⟩]
+      (lit "example.com/a") = [lit "v1.2.3-rc-1"] := by decide +kernel
+
 /-! ### 5. nothing else is served -/
 
 /-- the version the commit-hash loop resolves to is the requested one or a recorded version of the path -/
